@@ -26,7 +26,13 @@ RULE = (
     "complex, real, Hermitian, single Pauli strings, sparse/diagonal, zero; ndarray or list of lists), expanded and "
     "converted back; reverse = single and double qubit-order reversal on n >= width; expectation = operator, "
     "register and random normalised state through get_expectation_value (both orders) and expectation (row vector, "
-    "column vector, density matrix). non-trivial = the operator/matrix has a Y component or a gap between acted-on "
+    "column vector, density matrix); mutation = histories on one receiver: a public coefficient / the term list of "
+    "the operator reassigned or edited, an object returned by an earlier conversion edited in place, the matrix / "
+    "state array / wavefunction passed again after an in-place edit, with one, a few or all conversions asked "
+    "before and after; spelling = numpy scalars as coefficients and as n, term tuples, the identical term object "
+    "repeated, coefficients 1e-11..1e-9 and 1e6..1e12 (sparse matrix and direct expectation only), csr / coo / "
+    "LinearOperator operands and strided states for expectation; matrices for the expansion also as tuples, lists "
+    "of row arrays, Fortran-ordered and strided arrays. non-trivial = the operator/matrix has a Y component or a gap between acted-on "
     "qubits, or the register is wider than the operator; distinct = distinct canonical case strings"
 )
 ASSUMPTIONS = [
@@ -34,6 +40,8 @@ ASSUMPTIONS = [
     "1x1 matrices are not given to get_pauliop_from_matrix (the function documents n-qubit input and raises loudly)",
     "is_hermitian is judged for simplified operators only and outside the tolerance grey zone (anti-Hermitian coefficient part in (1e-10, 1e-3) gives no verdict)",
     "ndarray / sparse-matrix inputs of hermitian_conjugated and is_hermitian are not part of the property (counted out of domain)",
+    "mutation histories use public attributes only (PauliTerm.coefficient, PauliSum.terms, item assignment on Wavefunction, in-place edits of arrays / sparse matrices the caller owns); every call is judged against the operand as it is when the call returns",
+    "coefficients that are not plain or numpy numbers (Fraction, sympy numbers) and Python ints beyond 2**63 are not generated: the sparse conversion rejects them loudly (scipy object dtype)",
 ]
 DECIDING = [
     "get_sparse_operator", "hermitian_conjugated", "is_hermitian", "get_pauliop_from_matrix",
@@ -42,14 +50,14 @@ DECIDING = [
 ]
 BRANCHES = ["get_sparse_operator:gap-identity", "get_sparse_operator:trailing-identity",
             "expectation:density-matrix", "expectation:row-vector", "expectation:column-vector"]
-BUDGET = {"quick": (4, 20, 1500), "thorough": (16, 150, 100000)}
+BUDGET = {"quick": (4, 20, 1800), "thorough": (16, 150, 100000)}
 
 MAXN = 7
 _LIB = None
 
 
 def classes(tier):
-    return ["sparse", "hermitian", "from_matrix", "reverse", "expectation", "history"]
+    return ["sparse", "hermitian", "from_matrix", "reverse", "expectation", "history", "mutation", "spelling"]
 
 
 # ----------------------------------------------------------------------------- oracle helpers
@@ -434,6 +442,17 @@ def _post_expectation(mon, call):
     operator = _arg(call, 0, "operator")
     state = _arg(call, 1, "state")
     M = _to_dense(operator)
+    if M is None:
+        # a LinearOperator (documented operand): its matrix is its action on the basis vectors
+        try:
+            import scipy.sparse.linalg
+
+            if isinstance(operator, scipy.sparse.linalg.LinearOperator) and len(operator.shape) == 2 \
+                    and operator.shape[0] == operator.shape[1] <= 2**MAXN:
+                M = np.asarray(operator.matmat(np.eye(operator.shape[0], dtype=complex)), dtype=complex)
+                mon.note("expectation:linear-operator")
+        except Exception:
+            M = None
     if M is None or M.ndim != 2 or M.shape[0] != M.shape[1] or M.shape[0] > 2**MAXN or not np.isfinite(M).all():
         mon.out_of_domain(hook)
         return
@@ -579,6 +598,76 @@ def rand_matrix(rng, nprng, n, kind):
     return A
 
 
+
+def _distinct_spec(rng, top=4, kmax=3, nmax=3):
+    """1-3 terms on distinct Pauli strings, generic coefficients of magnitude > 0.05 (a simplified operator)"""
+    spec = _as_list(_operator_spec(rng, "generic", allow_empty=False, top=top, kmax=kmax))
+    seen, out = set(), []
+    for ops, c in spec:
+        if tuple(ops) in seen or len(out) >= nmax:
+            continue
+        seen.add(tuple(ops))
+        out.append((ops, c if abs(c) > 0.05 else 0.5))
+    return out or [(((0, "Z"),), 0.5)]
+
+
+def _other_coefficient(rng, c):
+    """a coefficient that differs from ``c`` by far more than any oracle tolerance; some choices stay within the
+    library's own tolerance-equality of coefficients, some flip Hermiticity, some are numpy scalars"""
+    c = complex(c)
+    k = rng.randrange(8)
+    if k == 0:
+        return c * 2
+    if k == 1:
+        return c + 3e-7
+    if k == 2:
+        return complex(c.real, 0.5 if abs(c.imag - 0.5) > 0.1 else -0.75)
+    if k == 3:
+        return 1.25 if abs(c - 1.25) > 0.1 else -0.375
+    if k == 4:
+        return -c
+    if k == 5:
+        return np.float64(rng.choice([-1, 1]) * rng.uniform(0.1, 3.0))
+    if k == 6:
+        return np.complex128(complex(rng.uniform(0.1, 2.0), rng.uniform(-2.0, -0.1)))
+    return G.generic(rng)
+
+
+def _scribble_sparse(rng, M):
+    """the caller rescales / overwrites entries of a sparse matrix it owns (structure kept: no efficiency warning)"""
+    k = rng.randrange(4)
+    if k == 0:
+        M *= 10
+    elif k == 1 and M.nnz:
+        M.data[:] = 0.0
+    elif k == 2 and M.nnz:
+        M.data[rng.randrange(M.nnz)] += 7.0
+    else:
+        M *= (0.5 - 1.5j)
+        if M.nnz:
+            M.data[0] = 3.0
+
+
+def _scribble_operator(rng, T, res):
+    """the caller edits an operator that a conversion returned (public attributes only)"""
+    terms = res.terms
+    k = rng.randrange(4)
+    if isinstance(res, T):
+        res.coefficient = complex(res.coefficient) * 3 + 1
+        return
+    if k == 0 and len(terms):
+        t = terms[rng.randrange(len(terms))]
+        t.coefficient = complex(t.coefficient) * 3 + 1
+    elif k == 1 and isinstance(terms, list):
+        terms.append(T({0: "Y"}, 2.5))
+    elif k == 2 and isinstance(terms, list) and len(terms):
+        del terms[rng.randrange(len(terms))]
+    else:
+        res.terms = [T({0: "X", 1: "Y"}, -1.5j)] + list(terms)
+        for t in terms:
+            t.coefficient = complex(t.coefficient) - 2
+
+
 def run_case(ctx):
     from orquestra.quantum.operators import (
         expectation,
@@ -667,13 +756,24 @@ def run_case(ctx):
         kind = rng.choice(["complex", "complex", "real", "hermitian", "pauli", "pauli", "dyadic", "sparse",
                            "diagonal", "int", "zero"])
         A = rand_matrix(rng, nprng, n, kind)
-        as_list = rng.random() < 0.3
+        box = rng.choice(["ndarray"] * 11 + ["list"] * 5 + ["tuple", "rows", "fortran", "view"])
+        as_list = box in ("list", "tuple")
         sym = bool(np.abs(A - A.T).max() < 1e-12)
-        ctx.describe(f"from_matrix n={n} {kind} list={as_list} " + np.array2string(np.asarray(A), precision=6, max_line_width=100000).replace("\n", " "),
+        ctx.describe(f"from_matrix n={n} {kind} list={as_list} box={box} " + np.array2string(np.asarray(A), precision=6, max_line_width=100000).replace("\n", " "),
                      not sym)
         arg = [[complex(x) if np.iscomplexobj(A) else float(x) for x in row] for row in A] if as_list else A
         if as_list and kind == "int":
             arg = [[int(x) for x in row] for row in A]
+        if box == "tuple":
+            arg = tuple(tuple(row) for row in arg)
+        elif box == "rows":
+            arg = [np.array(row) for row in np.asarray(A)]
+        elif box == "fortran":
+            arg = np.asfortranarray(A)
+        elif box == "view":
+            big = np.zeros((2 * A.shape[0], 2 * A.shape[0] + 1), dtype=np.asarray(A).dtype)
+            big[::2, 1::2] = A
+            arg = big[::2, 1::2]
         op = get_pauliop_from_matrix(arg)
         # and back: the sparse matrix of the expansion is the matrix again
         try:
@@ -763,6 +863,248 @@ def run_case(ctx):
                 get_sparse_operator(op, w)
                 get_expectation_value(op, wf)
                 del op
+        return
+
+    if cls == "mutation":
+        # histories on ONE receiver: between two conversions the caller reassigns a public attribute of the operator
+        # (a coefficient, the term list), edits in place an object that an earlier conversion returned, or edits in
+        # place the matrix / state it passes again.  Every call is judged by the hooks against the operand as it is
+        # at that moment, so an answer remembered on the object (or under its identity) shows.
+        import warnings
+
+        import scipy.sparse
+
+        spec = _distinct_spec(rng)
+        w = max(1, _spec_width(spec))
+        mode = rng.choice(["coefficient", "coefficient", "terms", "terms", "result-sparse", "result-operator",
+                           "result-expansion", "matrix-expansion", "matrix-hermitian", "matrix-expectation", "state"])
+        as_term = len(spec) == 1 and rng.random() < 0.6
+        terms = [G.build_term(T, sp) for sp in spec]
+        op = terms[0] if as_term else S(terms if rng.random() < 0.7 else tuple(terms))
+
+        # which conversions are asked in every round: one alone (then its two calls around the edit are consecutive:
+        # a "most recent call" memo is met), a few, or all of them
+        every = ["sparse-n", "sparse", "gev", "gev-reversed", "conjugate", "is-hermitian", "reverse-n", "reverse"]
+        asked = rng.sample(every, rng.choice([1, 1, 2, 3, len(every)]))
+        ctx.describe(f"mutation {mode} {G.fmt(spec)} w={w} term={as_term} asked={','.join(asked)}", True)
+
+        def convert_all(op, n, wf):
+            for what in asked:
+                if what == "sparse-n":
+                    get_sparse_operator(op, n)
+                elif what == "sparse":
+                    get_sparse_operator(op)
+                elif what == "gev":
+                    get_expectation_value(op, wf)
+                elif what == "gev-reversed":
+                    get_expectation_value(op, wf, True)
+                elif what == "conjugate":
+                    hermitian_conjugated(op)
+                elif what == "is-hermitian":
+                    is_hermitian(op)
+                elif what == "reverse-n":
+                    reverse_qubit_order(op, n)
+                else:
+                    reverse_qubit_order(op)
+
+        if mode == "coefficient":
+            wf = Wavefunction(L.random_state(nprng, 2 ** w))
+            convert_all(op, w, wf)
+            first = None
+            for r in range(2):
+                t = op if as_term else op.terms[rng.randrange(len(op.terms))]
+                if r == 1 and rng.random() < 0.4:
+                    first[0].coefficient = first[1]  # back to where it was
+                else:
+                    if first is None:
+                        first = (t, t.coefficient)
+                    t.coefficient = _other_coefficient(rng, t.coefficient)
+                convert_all(op, w, wf)
+            return
+
+        if mode == "terms":
+            if as_term:
+                op = S([op])
+            n = w + 1
+            wf = Wavefunction(L.random_state(nprng, 2 ** n))
+            convert_all(op, n, wf)
+            for r in range(2):
+                cur = list(op.terms)
+                fresh = T(dict(rng.choice([((0, "Y"),), ((w, "X"),), ((0, "Z"), (w, "Y")), ()])), G.generic(rng))
+                k = rng.randrange(6)
+                if k == 0 and isinstance(op.terms, list):
+                    op.terms.append(fresh)
+                elif k == 1 and isinstance(op.terms, list) and cur:
+                    op.terms[rng.randrange(len(cur))] = fresh
+                elif k == 2 and isinstance(op.terms, list) and cur:
+                    del op.terms[rng.randrange(len(cur))]
+                elif k == 3:
+                    op.terms = cur[::-1] + [fresh]
+                elif k == 4:
+                    op.terms = tuple(cur[1:]) + (fresh,)
+                else:
+                    op.terms = [t.copy(_other_coefficient(rng, t.coefficient)) for t in cur]
+                convert_all(op, n, wf)
+            return
+
+        if mode == "result-sparse":
+            wf = Wavefunction(L.random_state(nprng, 2 ** w))
+            n = rng.choice([w, None])
+            for r in range(3):
+                M = get_sparse_operator(op, w) if n is not None else get_sparse_operator(op)
+                get_expectation_value(op, wf)
+                with warnings.catch_warnings():
+                    warnings.simplefilter("ignore")
+                    _scribble_sparse(rng, M)
+            get_expectation_value(op, wf, True)
+            return
+
+        if mode == "result-operator":
+            wf = Wavefunction(L.random_state(nprng, 2 ** w))
+            for r in range(2):
+                hc = hermitian_conjugated(op)
+                is_hermitian(op)
+                rv = reverse_qubit_order(op, w)
+                rv2 = reverse_qubit_order(op)
+                get_expectation_value(op, wf, True)
+                get_sparse_operator(op, w)
+                for res in (hc, rv, rv2):
+                    _scribble_operator(rng, T, res)
+            return
+
+        if mode in ("result-expansion", "matrix-expansion"):
+            n = rng.choice([1, 2, 2])
+            A = rand_matrix(rng, nprng, n, rng.choice(["complex", "hermitian", "dyadic", "pauli", "real"]))
+            A = np.array(A, dtype=complex)
+            arg = A if rng.random() < 0.6 else [[complex(x) for x in row] for row in A]
+            for r in range(3):
+                res = get_pauliop_from_matrix(arg)
+                if mode == "result-expansion":
+                    _scribble_operator(rng, T, res)
+                else:
+                    i, j = rng.randrange(2 ** n), rng.randrange(2 ** n)
+                    if isinstance(arg, np.ndarray) and rng.random() < 0.3:
+                        arg *= 1j
+                    else:
+                        arg[i][j] = arg[i][j] + rng.choice([1.0, -2.5j, 0.75 + 0.5j])
+            return
+
+        if mode == "matrix-hermitian":
+            # the operator's own matrix, made Hermitian, then one stored entry moved off the Hermitian cone in place
+            herm = [(ops, complex(c).real or 1.0) for ops, c in spec]
+            M = get_sparse_operator(S([G.build_term(T, sp) for sp in herm]), w)
+            A = M if rng.random() < 0.5 else np.asarray(M.toarray())
+            for r in range(3):
+                hermitian_conjugated(A)
+                is_hermitian(A)
+                if isinstance(A, np.ndarray):
+                    A[rng.randrange(2 ** w), rng.randrange(2 ** w)] += rng.choice([0.5j, 1.5j, -0.25j])
+                elif A.nnz:
+                    A.data[rng.randrange(A.nnz)] += rng.choice([0.5j, 1.5j, -0.25j])
+            return
+
+        if mode == "matrix-expectation":
+            M = get_sparse_operator(op, w)
+            psi = L.random_state(nprng, 2 ** w)
+            form = rng.choice(["row", "column", "density", "all"])
+            state = {"row": psi, "column": psi.reshape(-1, 1).copy(),
+                     "density": scipy.sparse.csc_matrix(np.outer(psi, psi.conj()))}
+            forms = list(state) if form == "all" else [form]
+            for r in range(3):
+                for f in forms:
+                    expectation(M, state[f])
+                if rng.random() < 0.5:
+                    with warnings.catch_warnings():
+                        warnings.simplefilter("ignore")
+                        _scribble_sparse(rng, M)
+                else:
+                    phi = L.random_state(nprng, 2 ** w)
+                    state["row"][:] = phi
+                    state["column"][:, 0] = phi
+                    new = scipy.sparse.csc_matrix(np.outer(phi, phi.conj()))
+                    if new.nnz == state["density"].nnz:
+                        state["density"].data[:] = new.data
+            return
+
+        # state: the wavefunction is edited between two evaluations (item assignment keeps the norm: a phase on one
+        # amplitude, two amplitudes exchanged) or the array it was built from is (Wavefunction keeps complex arrays
+        # by reference)
+        psi = L.random_state(nprng, 2 ** w)
+        wf = Wavefunction(psi)
+        flags = rng.choice([(False,), (True,), (False, True)])
+        for r in range(3):
+            for rev in flags:
+                get_expectation_value(op, wf, rev)
+            k = rng.randrange(3)
+            i, j = rng.sample(range(2 ** w), 2)
+            if k == 0:
+                wf[i] = complex(wf[i]) * 1j
+            elif k == 1:
+                wf[[i, j]] = wf[[j, i]]
+            else:
+                psi[:] = L.random_state(nprng, 2 ** w)
+        return
+
+    if cls == "spelling":
+        # the same questions with operands spelled differently: numpy scalars as coefficients and as n, term
+        # sequences that are tuples, the identical term object several times in a sum, coefficients far from 1
+        # (where nothing is simplified away: sparse matrix, direct expectation value), operator / state containers
+        import scipy.sparse
+        import scipy.sparse.linalg
+
+        mode = rng.choice(["numpy-coefficient", "numpy-n", "tuple-terms", "identical-terms", "tiny", "huge",
+                           "mixed-scale", "containers"])
+        spec = _as_list(_operator_spec(rng, regime, allow_empty=False, top=4, kmax=3)) or [(((0, "Y"),), 0.5)]
+        if mode == "numpy-coefficient":
+            def npc(c):
+                if isinstance(c, complex):
+                    return np.complex128(c)
+                if isinstance(c, int):
+                    return rng.choice([np.int64, np.int32])(c)
+                return np.float64(c)
+            spec = [(ops, npc(c)) for ops, c in spec]
+        elif mode in ("tiny", "huge", "mixed-scale"):
+            def scaled(c, i):
+                e = {"tiny": rng.choice([-9, -9, -10, -11]), "huge": rng.choice([6, 9, 12]),
+                     "mixed-scale": rng.choice([-9, -10, 0]) if i else 0}[mode]
+                c = c if c != 0 else 1.0
+                return c * 10.0 ** e
+            spec = [(ops, scaled(c, i)) for i, (ops, c) in enumerate(spec)]
+        w = max(1, _spec_width(spec))
+        n = min(MAXN, w + rng.randint(0, 2))
+        ntype = rng.choice([np.int64, np.int32, np.intp]) if mode == "numpy-n" else int
+        ctx.describe(f"spelling {mode} {G.fmt(spec)} n={n} {ntype.__name__}", _nontrivial(spec, n))
+        terms = [G.build_term(T, sp) for sp in spec]
+        if mode == "identical-terms":
+            terms = terms + [terms[0]] + ([terms[-1], terms[0]] if rng.random() < 0.5 else [])
+        if mode == "tuple-terms":
+            op = S(tuple(terms))
+        elif len(terms) == 1 and rng.random() < 0.5 and mode != "identical-terms":
+            op = terms[0]
+        else:
+            op = S(terms)
+        psi = L.random_state(nprng, 2 ** n)
+        wf = Wavefunction(psi)
+        M = get_sparse_operator(op, ntype(n))
+        get_expectation_value(op, wf)
+        if mode in ("tiny", "huge", "mixed-scale"):
+            get_sparse_operator(op)
+            expectation(M, psi)
+            return
+        get_expectation_value(op, wf, True)
+        reverse_qubit_order(op, ntype(n))
+        hermitian_conjugated(op)
+        is_hermitian(op)
+        if mode == "containers":
+            for form in (M.tocsr(), M.tocoo(), scipy.sparse.linalg.aslinearoperator(M)):
+                expectation(form, psi)
+                expectation(form, psi.reshape(-1, 1))
+            rho = np.outer(psi, psi.conj())
+            expectation(M.tocsr(), scipy.sparse.csr_matrix(rho))
+            expectation(M, scipy.sparse.coo_matrix(rho))
+            big = np.zeros((2 ** n, 2), dtype=complex)
+            big[:, 1] = psi
+            expectation(M, big[:, 1])  # a strided view
         return
 
     if cls == "expectation":
